@@ -825,6 +825,11 @@ class HistogramBase(abc.ABC):
             "frequencies": a_dict.get("frequencies"),
             "errors2": a_dict.get("errors2"),
         }
+        shape = tuple(binning.bin_count for binning in kwargs["binnings"])
+        for key in ("frequencies", "errors2"):
+            # Nested lists cannot express a shape like (0, 2)
+            if kwargs[key] is not None and 0 in shape and np.size(kwargs[key]) == 0:
+                kwargs[key] = np.zeros(shape, dtype=kwargs["dtype"])
         if "missed" in a_dict:
             kwargs["missed"] = a_dict["missed"]
         if "missed_keep" in a_dict:
